@@ -508,6 +508,7 @@ class StatesManager:
         self.grid = grid
         self.pairing = pairing
         self._last_projected_index = -1
+        self._index_after_last_logged = None
 
     def is_outside(self, state_increment):
         state = self.origin_coordinates + state_increment
@@ -535,8 +536,12 @@ class StatesManager:
         is_outside = self.is_outside
         project = self.pairing.project
         if x == max_logged:
-            # reset the self._last_projected_index
-            self._last_projected_index = -1
+            # the caller restarts the enumeration right after its last logged state. x counts the admissible states
+            # whereas the enumeration runs over the indices of the pairing (inadmissible ones are skipped), so the
+            # index to resume from is the one reached when the log got full, not x itself
+            if self._index_after_last_logged is None:
+                self._index_after_last_logged = self._last_projected_index + 1
+            self._last_projected_index = self._index_after_last_logged - 1
 
         xx = max(x, self._last_projected_index + 1)
 
